@@ -58,6 +58,7 @@ def gate_dispatch(run, f, direction, rule='R11.gate'):
                 other: _Sym('OTHER') if has_oth else None, 'n': 2, 'qubits': _Sym('Q'), 'device': _Sym('dev')}
         objN = 2 if glob else 3
         state = {}
+        depth = [0]
 
         def attr(nd, env, rec, heap=heap, objN=objN):
             base = norm(nd.value)
@@ -82,6 +83,20 @@ def gate_dispatch(run, f, direction, rule='R11.gate'):
                 kw = {k.arg: rec(k.value) for k in nd.keywords}
                 state['acts'].append((fn.attr, args[0] if args else None, args[1] if len(args) > 1 else kw.get('mask'), nd))
                 return _Sym('obj')
+            if isinstance(fn, ast.Attribute) and norm(fn.value) == 'self' and f.cls is not None and fn.attr in f.cls.methods and depth[0] < 2:
+                # a helper method of the gate: executed with the same heap and hooks
+                callee = f.cls.methods[fn.attr]
+                vals = [rec(a) for a in nd.args]
+                if len(vals) + 1 != len(callee.posparams) or nd.keywords:
+                    raise Undecidable('call ' + norm(fn))
+                out = []
+                depth[0] += 1
+                try:
+                    mini.execute(callee.node, dict(zip(callee.posparams, [_Sym('self')] + vals)), attr=attr, call=call, on_store=on_store,
+                                 on_expr=on_expr, choices=state.get('choices'), result=out)
+                finally:
+                    depth[0] -= 1
+                return out[0] if out else None
             raise Undecidable('call ' + norm(fn))
 
         def on_store(t, v, env, value, heap=heap):
@@ -98,6 +113,7 @@ def gate_dispatch(run, f, direction, rule='R11.gate'):
         def run_once(choices, heap=heap):
             saved = dict(heap)
             state['stores'], state['acts'] = [], []
+            state['choices'] = choices
             try:
                 mini.execute(f.node, {obj: _Sym('obj')}, attr=attr, call=call, on_store=on_store, on_expr=on_expr, choices=choices)
                 return list(state['stores']), list(state['acts'])
@@ -208,6 +224,17 @@ def layer_compile(run, f, rule='R11.lcompile'):
     inits = {}
     embeds = []
     compiled = False
+    alias = {}        # local name bound to the same object as a field of self (chained assignment, or x = self.field)
+    for st, ctx in walk(f.node):
+        if isinstance(st, ast.Assign) and not ctx.loops:
+            flds = [t.attr for t in st.targets if isinstance(t, ast.Attribute) and norm(t.value) == 'self']
+            names_ = [t.id for t in st.targets if isinstance(t, ast.Name)]
+            if len(flds) == 1:
+                for x in names_:
+                    alias[x] = 'self.' + flds[0]
+            if isinstance(st.value, ast.Attribute) and norm(st.value.value) == 'self':
+                for x in names_:
+                    alias[x] = norm(st.value)
     for st, ctx in walk(f.node):
         if isinstance(st, ast.Assign) and not ctx.loops:
             tg = [t for t in st.targets if isinstance(t, ast.Attribute) and norm(t.value) == 'self']
@@ -229,6 +256,7 @@ def layer_compile(run, f, rule='R11.lcompile'):
     seen = set()
     for c, ctx, ln in embeds:
         recv = norm(c.func.value)
+        recv = alias.get(recv, recv)
         lp = ctx.loops[-1]
         g = lp.target.id if isinstance(lp.target, ast.Name) else '?'
         which = recv.split('.')[-1]
